@@ -4,7 +4,7 @@
    the occupancy split, the serial wrap, and "no made-up value".  The refinement read_pdb (render recs) = denote recs is
    established by correspondence only (see the level note). *)
 From Coq Require Import List Ascii String ZArith QArith Bool Lia.
-From PV Require Import Base.Sx Base.Text Base.Float Base.Group Spec.Hier Spec.PdbSpec Model.AddAtom Model.PdbLex Model.PdbParse Proofs.Decimal Proofs.C01just Proofs.C01line Proofs.C01group Proofs.C01sim Proofs.C01annot Proofs.C01models Gen.PdbColumns Spec.PdbColumnsDoc.
+From PV Require Import Base.Sx Base.Text Base.Float Base.Group Spec.Hier Spec.PdbSpec Model.AddAtom Model.PdbLex Model.PdbParse Proofs.Decimal Proofs.C01just Proofs.C01line Proofs.C01group Proofs.C01sim Proofs.C01annot Proofs.C01models Proofs.C01meta Model.Symmetry Gen.PdbColumns Spec.PdbColumnsDoc.
 Import ListNotations.
 
 (* 1. inside a model: exactly one chain per chain id, in order of first appearance (and likewise one residue per key, one
@@ -149,6 +149,18 @@ Theorem C01_reader_builds_the_models_of_the_records : forall rs : list (Z * rec)
   map (fun m => (fst m, spec_chains atom (snd m))) (close_model w).
 Proof. exact (fun rs => reader_builds_the_models_of_the_records false eq_refl rs). Qed.
 
+(* HEADER, REMARK and CRYST1 records between the coordinate records: for every sequence of such records (REMARKs with a
+   remark-type-number of the format and valid text) the identifier, the remarks, the cell and the space group the reader model
+   ends with are the ones the specification reads off the records, and the models are the models of the records *)
+Theorem C01_reader_reads_metadata_and_models : forall rs : list (Z * rec), Forall (fun x => file_rec (snd x)) rs ->
+  let s := fold_left (stepf false) rs st0 in
+  let recs := map snd rs in
+  s_id s = denote_id recs /\ s_remarks s = denote_remarks recs /\ s_cell s = denote_cell recs /\
+  s_sym s = match denote_sg recs with Some sg => Symmetry_of sg | None => None end /\
+  map abs_model (s_models s ++ match s_cur s with [] => [] | c => [model_of_cur (s_cur_num s) c] end) =
+  map (fun m => (fst m, spec_chains atom (snd m))) (close_model (fold_left walk_step recs walk0)).
+Proof. exact (fun rs => reader_reads_metadata_and_models false eq_refl rs). Qed.
+
 Print Assumptions C01_one_chain_per_id.
 Print Assumptions C01_occupancy_split_adds_up.
 Print Assumptions C01_wrap_continues.
@@ -167,3 +179,4 @@ Print Assumptions C01_reader_refines_walk_on_coordinate_runs.
 Print Assumptions C01_numeral_field_is_the_specified_value.
 Print Assumptions C01_modres_pass_is_the_specification.
 Print Assumptions C01_reader_builds_the_models_of_the_records.
+Print Assumptions C01_reader_reads_metadata_and_models.
